@@ -82,9 +82,9 @@ def replay_inputs(job, Sc):
         out = Outcome(exc=e)
     Ss = symbolize(Sc)
     failed = []
+    from .harness import concrete_truth
     for label, f in job.holds(Ss, out):
-        v = z3.simplify(f) if not isinstance(f, bool) else (TRUE if f else FALSE)
-        if not z3.is_true(v):
+        if not concrete_truth(None, f):
             failed.append(label)
     return out, failed
 
